@@ -38,8 +38,8 @@ RULE = (
 )
 ASSUMPTIONS = ["JSON-LD @prefix dictionaries always carry a string @id (DESIGN 7.3)", "rdflib's own namespaces() is the meaning of a graph's prefix map"]
 
-P = ["a", "A", "b", "ab", "é", "", "@x", "a.b", "GO", "x y", " a", "a ", "b\n", "ſ"]
-U = ["u/", "u/x", "U/", "v#", "", "http://x/", "uu/", "vv#", "http://x/a_", "u/xy", " u/", "u/ ", "HTTP://X/",
+P0 = ["a", "A", "b", "ab", "é", "", "@x", "a.b", "GO", "x y", " a", "a ", "b\n", "ſ"]
+U0 = ["u/", "u/x", "U/", "v#", "", "http://x/", "uu/", "vv#", "http://x/a_", "u/xy", " u/", "u/ ", "HTTP://X/",
      # (a URI prefix is an arbitrary string: also one that looks like a JSON-LD keyword or starts with '@', and the
      #  https twin of another one)
      "@id", "@", "@example.org/user/", "https://x/"]
@@ -171,6 +171,12 @@ def run_case(ctx, g, rng):
         return at_scale_case(ctx, g, rng)
     api, S = ctx.api, probe.S
     C = api.Converter
+    P, U = P0, U0
+    if rng.random() < 0.2:
+        # one case in five seasons the pools with value classes collected from the seeded changes
+        P = P0 + [x for x in gen.hostile(rng, 3, exclude=(":",)) if x not in P0]
+        U = U0 + [x for x in gen.hostile(rng, 3, uri=True) if x not in U0]
+        S.counters["wl:pools-seasoned"] += 1
     which = g % 6
     pm = ppm = rpm = epm = data = den = None
     if which == 0:
